@@ -194,7 +194,7 @@ def run(ctx):
     # ---------------- part 3: invalid-heavy histories on the faithful models
     # sequences (C04 machinery)
     drv = ctx.build_driver('Seq')
-    h = ctx.build_harness('seq_wb.c', whitebox='Array')
+    h = ctx.build_harness('seq_wb.c', whitebox=['Array', 'List'], extra=P4.list_cursor_flags(ctx))   # built exactly as C04 builds it
     ri = lambda cs: ctx.run_lines(h, cs)[1]
     rm = lambda cs: ctx.run_lines(drv, cs, args=['model'])[1]
     ds = vlib.Differential(ctx, 'seq_invalid', ri, rm, lambda cs: [''] * len(cs), atom_seq, P4.corr,
